@@ -35,12 +35,17 @@ mutual
     | .forn _ _ b => tnodes b
     | .withn _ _ b => tnodes b
     | .elem _ b => tnodes b
-    | .comp name _ _ _ body => body.isEmpty && !isDynName name
+    | .comp name _ _ _ body => fbody body && !isDynName name
     | .slot _ isDefault _ _ body => !isDefault && tnodes body
     | _ => false
   def tnodes : List Node → Bool
     | [] => true
     | nd :: rest => tnode nd && tnodes rest
+  /-- the body of a component tag: nothing, or `{% fill "name" [data="d"] %}…{% endfill %}` tags with content of the fragment -/
+  def fbody : List Node → Bool
+    | [] => true
+    | .fill (.lit _) _ none content :: rest => tnodes content && fbody rest
+    | _ => false
 end
 
 def constFree : Src → Bool
@@ -250,7 +255,12 @@ structure GoodR (env : Env) (r : Renderer) (k : Nat) : Prop where
 
 /-- a `ComponentContext` entry made by a tag of the fragment: no fills, not the dynamic component, and the context at
 the tag (`outer_context`) holds no slot references -/
-def GoodC (cc : CompCtx) : Prop := cc.fills = [] ∧ cc.isDyn = false ∧ ∃ oc, cc.outer = some oc ∧ ctxFree oc = true
+def GoodFill (f : FillFn) : Prop :=
+  tnodes f.nodes = true ∧ slotFreeKvs f.extra = true ∧ f.defaultVar = none ∧ f.content = none
+
+def GoodFills (fills : List (Str × FillFn)) : Prop := ∀ kv ∈ fills, GoodFill kv.2
+
+def GoodC (cc : CompCtx) : Prop := GoodFills cc.fills ∧ cc.isDyn = false ∧ ∃ oc, cc.outer = some oc ∧ ctxFree oc = true
 
 /-- nothing is registered under ids not generated yet; no provider alive; every `ComponentContext` entry is one of the
 fragment -/
@@ -780,10 +790,11 @@ structure Stmt (env : Env) (n : Nat) : Prop where
     (renderFor env n x items i body ctx).run.run w = (.ok toks, w') → Bal env w w' (holeIds toks)
   node : ∀ nd ctx w toks w', tnode nd = true → ctxFree ctx = true → WInv w →
     (renderNode env n nd ctx).run.run w = (.ok toks, w') → Bal env w w' (holeIds toks)
-  tag : ∀ name kwargs only dyn ctx w toks w', isDynName name = false → ctxFree ctx = true → WInv w →
-    (renderCompTag env n name kwargs only dyn [] ctx).run.run w = (.ok toks, w') → Bal env w w' (holeIds toks)
-  impl : ∀ name kw o ctx w toks w', isDynName name = false → ctxFree ctx = true → ctxFree o = true → slotFreeKvs kw = true → WInv w →
-    (renderImpl env n name kw [] (some o) ctx).run.run w = (.ok toks, w') →
+  tag : ∀ name kwargs only dyn body ctx w toks w', isDynName name = false → fbody body = true → ctxFree ctx = true → WInv w →
+    (renderCompTag env n name kwargs only dyn body ctx).run.run w = (.ok toks, w') → Bal env w w' (holeIds toks)
+  impl : ∀ name kw fills o ctx w toks w', isDynName name = false → ctxFree ctx = true → ctxFree o = true → slotFreeKvs kw = true →
+    GoodFills fills → WInv w →
+    (renderImpl env n name kw fills (some o) ctx).run.run w = (.ok toks, w') →
       Bal env w w' (holeIds toks) ∧ (parentOf ctx = none → holeIds toks = [])
   run : ∀ r k attrs w content ga w', GoodR env r k → WInv w →
     (runRenderer env n r attrs).run.run w = (.ok (content, ga), w') →
@@ -798,8 +809,8 @@ theorem stmt_zero (env : Env) : Stmt env 0 := by
   · intro nodes ctx w toks w' _ _ _ h; simp only [renderNodes, run_throw] at h; cases h
   · intro x items i body ctx w toks w' _ _ _ _ h; simp only [renderFor, run_throw] at h; cases h
   · intro nd ctx w toks w' _ _ _ h; simp only [renderNode, run_throw] at h; cases h
-  · intro name kwargs only dyn ctx w toks w' _ _ _ h; simp only [renderCompTag, run_throw] at h; cases h
-  · intro name kw o ctx w toks w' _ _ _ _ _ h; simp only [renderImpl, run_throw] at h; cases h
+  · intro name kwargs only dyn body ctx w toks w' _ _ _ _ h; simp only [renderCompTag, run_throw] at h; cases h
+  · intro name kw fills o ctx w toks w' _ _ _ _ _ _ h; simp only [renderImpl, run_throw] at h; cases h
   · intro r k attrs w content ga w' _ _ h; simp only [runRenderer, run_throw] at h; cases h
   · intro nameE isRequired data body ctx w toks w' _ _ _ h; simp only [renderSlot, run_throw] at h; cases h
   · intro Q parts out w0 w res w' _ _ _ _ h; simp only [postRender, run_throw] at h; cases h
@@ -873,113 +884,184 @@ theorem extra_lookup2 (b : Layer) (ctx : Ctx) (k : Str) (hk : internal k = false
     · have := injectKeys_prefixed ctx kv hkv'
       rw [e, notInject_of_usable k hk] at this; cases this
 
-theorem slotChecks_nofills (d : Bool) (ds : Option Str) (nm : Str) : slotChecks false d ds nm [] = .ok (nm, ds) := by
+theorem slotChecks_named (d : Bool) (ds : Option Str) (nm : Str) (fills : List (Str × FillFn)) :
+    slotChecks false d ds nm fills = .ok (nm, ds) := by
   simp [slotChecks, chooseFillName]
 
-/-- `SlotNode.render` on an instance of the fragment (no fills were given): the context the default content is rendered
-in, or the reason it is not rendered -/
+theorem sGet_mem (k : Str) : ∀ (l : List (Str × FillFn)) (f : FillFn), sGet k l = some f → ∃ k', (k', f) ∈ l
+  | [], _, h => by simp [sGet] at h
+  | (k', v) :: rest, f, h => by
+    simp only [sGet] at h
+    split at h
+    · injection h with h; exact ⟨k', by rw [h]; exact List.mem_cons_self ..⟩
+    · obtain ⟨k2, hk2⟩ := sGet_mem k rest f h
+      exact ⟨k2, List.mem_cons_of_mem _ hk2⟩
+
+theorem ctxFree_insert (i : Nat) (l : Layer) (c : Ctx) (h : ctxFree c = true) (hl : slotFreeKvs l = true) :
+    ctxFree (insertAt i l c) = true := by
+  have : insertAt i l c = c.take i ++ (l :: c.drop i) := by simp [insertAt]
+  rw [this]
+  simp only [ctxFree, List.all_append, List.all_cons, hl, Bool.true_and, Bool.and_eq_true]
+  have hall : ∀ x ∈ c, slotFreeKvs x = true := by simpa [ctxFree] using h
+  simp only [List.all_eq_true]
+  exact ⟨fun x hx => hall x (List.mem_of_mem_take hx), fun x hx => hall x (List.mem_of_mem_drop hx)⟩
+
+/-- `SlotNode.render` on an instance of the fragment: what is rendered, in which context — or the reason nothing is.
+`nm` is the name the slot tag resolves to. -/
 theorem slot_unfolds (env : Env) (n : Nat) (nameE : Expr) (isRequired : Bool) (data : List (Str × Expr)) (body : List Node)
     (ctx : Ctx) (w : World) (hc : ctxFree ctx = true) (hw : WInv w) :
     (∃ e, (renderSlot env (n + 1) nameE false isRequired data body ctx).run.run w = (.error e, w)) ∨
     (renderSlot env (n + 1) nameE false isRequired data body ctx).run.run w = (.ok [], w) ∨
-    (∃ c3, ctxFree c3 = true ∧ (∀ k, internal k = false → k ≠ compVarsKey → ctxGet c3 k = ctxGet ctx k) ∧
-      (renderSlot env (n + 1) nameE false isRequired data body ctx).run.run w = (renderNodes env n body c3).run.run w) := by
-  unfold renderSlot
+    (∃ cid cc c3, ctxGet ctx compKey = some (.compRef cid) ∧ alGet cid w.ctxCache = some cc ∧ ctxFree c3 = true ∧
+      ((sGet (slotNameOf (evalExpr ctx nameE)) cc.fills = none ∧
+          (∀ k, internal k = false → k ≠ compVarsKey → ctxGet c3 k = ctxGet ctx k) ∧
+          (renderSlot env (n + 1) nameE false isRequired data body ctx).run.run w = (renderNodes env n body c3).run.run w) ∨
+       (∃ f, sGet (slotNameOf (evalExpr ctx nameE)) cc.fills = some f ∧
+          (renderSlot env (n + 1) nameE false isRequired data body ctx).run.run w = (renderNodes env n f.nodes c3).run.run w))) := by
   by_cases hdeep : (evalKwargs ctx data).any (fun kv => tooDeep 10 kv.2) = true
-  · left; exact ⟨.budget, by simp only [hdeep, ↓reduceIte, run_bind, run_throw]⟩
+  · left; exact ⟨.budget, by unfold renderSlot; simp only [hdeep, ↓reduceIte, run_bind, run_throw]⟩
   cases hext : isExtracting ctx with
-  | true => right; left; simp only [hdeep, Bool.false_eq_true, ↓reduceIte, run_bind, run_pure]
+  | true => right; left; unfold renderSlot; simp only [hdeep, hext, Bool.false_eq_true, ↓reduceIte, run_bind, run_pure]
   | false =>
   have hcid : (∃ cid, ctxGet ctx compKey = some (.compRef cid)) ∨ ¬ (∃ cid, ctxGet ctx compKey = some (.compRef cid)) := Classical.em _
   rcases hcid with ⟨cid, hcid⟩ | hnc
   rotate_left
   · left
     refine ⟨.tse "slot outside component", ?_⟩
+    unfold renderSlot
     cases hg : ctxGet ctx compKey with
-    | none => simp only [hdeep, Bool.false_eq_true, ↓reduceIte, run_bind, run_pure, run_throw]
+    | none => simp only [hdeep, hext, Bool.false_eq_true, ↓reduceIte, run_bind, run_pure, run_throw]
     | some v =>
       cases v <;> first
         | (exfalso; exact hnc ⟨_, hg⟩)
-        | (simp only [hdeep, Bool.false_eq_true, ↓reduceIte, run_bind, run_pure, run_throw])
+        | (simp only [hdeep, hext, Bool.false_eq_true, ↓reduceIte, run_bind, run_pure, run_throw])
   cases hcc : alGet cid w.ctxCache with
   | none =>
     left
-    exact ⟨.keyError "component_context_cache", by simp only [hdeep, Bool.false_eq_true, ↓reduceIte, run_bind, run_pure, hcid, run_get, hcc, run_throw]⟩
+    exact ⟨.keyError "component_context_cache", by unfold renderSlot; simp only [hdeep, hext, Bool.false_eq_true, ↓reduceIte, run_bind, run_pure, hcid, run_get, hcc, run_throw]⟩
   | some cc =>
-  obtain ⟨hf, hdyn, oc, hoc, hocf⟩ := hw.good cid cc hcc
+  obtain ⟨hgf, hdyn, oc, hoc, hocf⟩ := hw.good cid cc hcc
   cases hh : hashable (evalExpr ctx nameE) with
   | false =>
     left
-    exact ⟨.typeError "unhashable slot name", by simp only [hdeep, Bool.false_eq_true, ↓reduceIte, run_bind, run_pure, hcid, run_get, hcc, hf, hdyn,
-      slotChecks_nofills, ne_eq, not_true_eq_false, hh, Bool.not_false, run_throw]⟩
+    exact ⟨.typeError "unhashable slot name", by unfold renderSlot; simp only [hdeep, hext, Bool.false_eq_true, ↓reduceIte, run_bind, run_pure, hcid, run_get, hcc, hdyn,
+      slotChecks_named, ne_eq, not_true_eq_false, hh, Bool.not_false, run_throw]⟩
   | true =>
-  cases hreq : isRequired with
-  | true =>
-    left
-    exact ⟨.tse "required slot not filled", by simp only [hdeep, Bool.false_eq_true, ↓reduceIte, run_bind, run_pure, hcid, run_get, hcc, hf, hdyn,
-      slotChecks_nofills, ne_eq, not_true_eq_false, hh, Bool.not_true, hoc, Option.isNone_some, Bool.and_false, Bool.false_and,
-      sGet, requiredCheck, Option.isNone_none, Bool.and_self, Bool.true_and, Bool.not_false, run_throw]⟩
-  | false =>
+  have hextra : slotFreeKvs (updateL (if (!env.isolated) = true then
+      match ctxGet oc compKey with
+      | some v => [(compKey, v), (compVarsKey, (ctxGet oc compVarsKey).getD Val.none)]
+      | none => []
+      else []) (injectKeysOf ctx)) = true := by
+    refine updateL_free _ _ ?_ (injectKeys_free ctx hc)
+    split
+    · cases hg : ctxGet oc compKey with
+      | none => rfl
+      | some v =>
+        have hv := ctxGet_free oc compKey v hocf hg
+        have hv2 : slotFree ((ctxGet oc compVarsKey).getD Val.none) = true := by
+          cases hg2 : ctxGet oc compVarsKey with
+          | none => rfl
+          | some v2 => exact ctxGet_free oc compVarsKey v2 hocf hg2
+        simp [slotFreeKvs, hv, hv2]
+    · rfl
+  cases hfill : sGet (slotNameOf (evalExpr ctx nameE)) cc.fills with
+  | none =>
+    cases hreq : isRequired with
+    | true =>
+      left
+      exact ⟨.tse "required slot not filled", by unfold renderSlot; simp only [hdeep, hext, Bool.false_eq_true, ↓reduceIte, run_bind, run_pure, hcid, run_get, hcc, hdyn,
+        slotChecks_named, ne_eq, not_true_eq_false, hh, Bool.not_true, hoc, Option.isNone_some, Bool.and_false, Bool.false_and,
+        hfill, requiredCheck, Option.isNone_none, Bool.and_self, Bool.true_and, Bool.not_false, run_throw]⟩
+    | false =>
+      right; right
+      have hmain : ∃ c3, ctxFree c3 = true ∧ (∀ k, internal k = false → k ≠ compVarsKey → ctxGet c3 k = ctxGet ctx k) ∧
+          (renderSlot env (n + 1) nameE false false data body ctx).run.run w = (renderNodes env n body c3).run.run w := by
+        unfold renderSlot
+        simp only [hdeep, hext, Bool.false_eq_true, ↓reduceIte, run_bind, run_pure, hcid, run_get, hcc, hdyn,
+          slotChecks_named, ne_eq, not_true_eq_false, hh, Bool.not_true, hoc, Option.isNone_some, Bool.and_false, Bool.false_and,
+          hfill, requiredCheck, Option.isNone_none, Bool.and_self, Bool.true_and, Bool.not_false, Option.getD_none, Option.isSome_none]
+        refine ⟨_, ?_, ?_, rfl⟩
+        · have hc2 := ctxFree_push ctx _ hc hextra
+          split
+          · exact ctxFree_insert_empty _ _ hc2
+          · exact ctxFree_insert_empty _ _ hc2
+        · -- the variables a template can name resolve as in the context at the slot tag
+          intro k hk hkv
+          have key : ∀ b : Layer, (∀ x, lookupL x b ≠ none → x = compKey ∨ x = compVarsKey) → ∀ (c : Ctx) (j : Nat),
+              c = ctx ++ [updateL b (injectKeysOf ctx)] → ctxGet (insertAt j [] c) k = ctxGet ctx k := by
+            intro b hb c j hcj
+            rw [hcj, ctxGet_insert_empty, ctxGet_append_one, extra_lookup2 b ctx k hk hkv hb]
+          have hbase : ∀ (v? : Option Val) (v2 : Val) (x : Str),
+              lookupL x (match v? with | some v => [(compKey, v), (compVarsKey, v2)] | none => []) ≠ none → x = compKey ∨ x = compVarsKey := by
+            intro v? v2 x h1
+            cases v? with
+            | none => simp [lookupL] at h1
+            | some v =>
+              simp only [lookupL] at h1
+              split at h1
+              · rename_i e1; exact Or.inl e1.symm
+              · split at h1
+                · rename_i e2; exact Or.inr e2.symm
+                · exact absurd rfl h1
+          split
+          · refine key _ ?_ _ _ rfl
+            intro x h1
+            split at h1
+            · cases hg : ctxGet oc compKey with
+              | none => simp [hg, lookupL] at h1
+              | some v => rw [hg] at h1; exact hbase (some v) _ x h1
+            · simp [lookupL] at h1
+          · refine key _ ?_ _ _ rfl
+            intro x h1
+            split at h1
+            · cases hg : ctxGet oc compKey with
+              | none => simp [hg, lookupL] at h1
+              | some v => rw [hg] at h1; exact hbase (some v) _ x h1
+            · simp [lookupL] at h1
+      obtain ⟨c3, h1, h2, h3⟩ := hmain
+      exact ⟨cid, cc, c3, hcid, hcc, h1, Or.inl ⟨hfill, h2, h3⟩⟩
+  | some f =>
+    obtain ⟨k', hmem⟩ := sGet_mem _ _ f hfill
+    obtain ⟨_, hfe, hfd, hfc⟩ : GoodFill f := hgf (k', f) hmem
     right; right
-    simp only [hdeep, Bool.false_eq_true, ↓reduceIte, run_bind, run_pure, hcid, run_get, hcc, hf, hdyn,
-      slotChecks_nofills, ne_eq, not_true_eq_false, hh, Bool.not_true, hoc, Option.isNone_some, Bool.and_false, Bool.false_and,
-      sGet, requiredCheck, Option.isNone_none, Bool.and_self, Bool.true_and, Bool.not_false, Option.getD_none, Option.isSome_none]
-    refine ⟨_, ?_, ?_, rfl⟩
-    rotate_left
-    · -- the variables a template can name resolve as in the context at the slot tag
-      intro k hk hkv
-      have key : ∀ b : Layer, (∀ x, lookupL x b ≠ none → x = compKey ∨ x = compVarsKey) → ∀ (c : Ctx) (j : Nat),
-          c = ctx ++ [updateL b (injectKeysOf ctx)] → ctxGet (insertAt j [] c) k = ctxGet ctx k := by
-        intro b hb c j hcj
-        rw [hcj, ctxGet_insert_empty, ctxGet_append_one, extra_lookup2 b ctx k hk hkv hb]
-      have hbase : ∀ (v? : Option Val) (v2 : Val) (x : Str),
-          lookupL x (match v? with | some v => [(compKey, v), (compVarsKey, v2)] | none => []) ≠ none → x = compKey ∨ x = compVarsKey := by
-        intro v? v2 x h1
-        cases v? with
-        | none => simp [lookupL] at h1
-        | some v =>
-          simp only [lookupL] at h1
-          split at h1
-          · rename_i e1; exact Or.inl e1.symm
-          · split at h1
-            · rename_i e2; exact Or.inr e2.symm
-            · exact absurd rfl h1
-      split
-      · refine key _ ?_ _ _ rfl
-        intro x h1
-        split at h1
-        · cases hg : ctxGet oc compKey with
-          | none => simp [hg, lookupL] at h1
-          | some v => rw [hg] at h1; exact hbase (some v) _ x h1
-        · simp [lookupL] at h1
-      · refine key _ ?_ _ _ rfl
-        intro x h1
-        split at h1
-        · cases hg : ctxGet oc compKey with
-          | none => simp [hg, lookupL] at h1
-          | some v => rw [hg] at h1; exact hbase (some v) _ x h1
-        · simp [lookupL] at h1
-    have hextra : slotFreeKvs (updateL (if (!env.isolated) = true then
+    have hused : ctxFree ((if env.isolated = true then oc else ctx) ++ [updateL (if (!env.isolated) = true then
         match ctxGet oc compKey with
         | some v => [(compKey, v), (compVarsKey, (ctxGet oc compVarsKey).getD Val.none)]
         | none => []
-        else []) (injectKeysOf ctx)) = true := by
-      refine updateL_free _ _ ?_ (injectKeys_free ctx hc)
+        else []) (injectKeysOf ctx)]) = true := by
+      refine ctxFree_push _ _ ?_ hextra
       split
-      · cases hg : ctxGet oc compKey with
-        | none => rfl
-        | some v =>
-          have hv := ctxGet_free oc compKey v hocf hg
-          have hv2 : slotFree ((ctxGet oc compVarsKey).getD Val.none) = true := by
-            cases hg2 : ctxGet oc compVarsKey with
-            | none => rfl
-            | some v2 => exact ctxGet_free oc compVarsKey v2 hocf hg2
-          simp [slotFreeKvs, hv, hv2]
-      · rfl
-    have hc2 := ctxFree_push ctx _ hc hextra
-    split
-    · exact ctxFree_insert_empty _ _ hc2
-    · exact ctxFree_insert_empty _ _ hc2
+      · exact hocf
+      · exact hc
+    have hmain : ∃ c3, ctxFree c3 = true ∧
+        (renderSlot env (n + 1) nameE false isRequired data body ctx).run.run w = (renderNodes env n f.nodes c3).run.run w := by
+      unfold renderSlot
+      simp only [hdeep, hext, Bool.false_eq_true, ↓reduceIte, run_bind, run_pure, hcid, run_get, hcc, hdyn,
+        slotChecks_named, ne_eq, not_true_eq_false, hh, Bool.not_true, hoc, Option.isNone_some, Bool.and_false, Bool.false_and,
+        hfill, requiredCheck, Option.isNone_some, Bool.and_self, Bool.true_and, Bool.not_false, Option.getD_some, Option.isSome_some,
+        hfc, hfd]
+      refine ⟨_, ?_, rfl⟩
+      have hdict : slotFree (Val.dict (evalKwargs ctx data)) = true := by
+        simp only [slotFree]; exact evalKwargs_free ctx hc data
+      have hc1 : ctxFree (match f.dataVar with
+          | some d => ctxSetTop ((if env.isolated = true then oc else ctx) ++ [updateL (if (!env.isolated) = true then
+              match ctxGet oc compKey with
+              | some v => [(compKey, v), (compVarsKey, (ctxGet oc compVarsKey).getD Val.none)]
+              | none => []
+              else []) (injectKeysOf ctx)]) d (Val.dict (evalKwargs ctx data))
+          | none => (if env.isolated = true then oc else ctx) ++ [updateL (if (!env.isolated) = true then
+              match ctxGet oc compKey with
+              | some v => [(compKey, v), (compVarsKey, (ctxGet oc compVarsKey).getD Val.none)]
+              | none => []
+              else []) (injectKeysOf ctx)]) = true := by
+        split
+        · exact ctxFree_setTop _ _ _ hused hdict
+        · exact hused
+      split
+      · exact ctxFree_insert _ _ _ hc1 hfe
+      · exact ctxFree_insert _ _ _ hc1 hfe
+    obtain ⟨c3, h1, h3⟩ := hmain
+    exact ⟨cid, cc, c3, hcid, hcc, h1, Or.inr ⟨f, hfill, h3⟩⟩
 
 theorem stmt_node (env : Env) (n : Nat) (ih : Stmt env n) :
     ∀ nd ctx w toks w', tnode nd = true → ctxFree ctx = true → WInv w →
@@ -1035,10 +1117,9 @@ theorem stmt_node (env : Env) (n : Nat) (ih : Stmt env n) :
       rw [this]
       exact Bal.left hcore b1
     | comp name kwargs only dyn body =>
-      simp only [tnode, Bool.and_eq_true, List.isEmpty_iff, Bool.not_eq_true'] at ht
+      simp only [tnode, Bool.and_eq_true, Bool.not_eq_true'] at ht
       obtain ⟨hb, hd⟩ := ht
-      subst hb
-      exact Bal.left hcore (ih.tag name kwargs only dyn ctx _ toks w' hd hc hw1 h)
+      exact Bal.left hcore (ih.tag name kwargs only dyn body ctx _ toks w' hd hb hc hw1 h)
     | slot nameE isDefault isRequired data body =>
       simp only [tnode, Bool.and_eq_true, Bool.not_eq_true'] at ht
       obtain ⟨hdf, hb⟩ := ht
@@ -1055,19 +1136,188 @@ theorem stmt_slot (env : Env) (n : Nat) (ih : Stmt env n) :
     ∀ nameE isRequired data body ctx w toks w', tnodes body = true → ctxFree ctx = true → WInv w →
     (renderSlot env (n + 1) nameE false isRequired data body ctx).run.run w = (.ok toks, w') → Bal env w w' (holeIds toks) := by
   intro nameE isRequired data body ctx w toks w' hb hc hw h
-  rcases slot_unfolds env n nameE isRequired data body ctx w hc hw with ⟨e, he⟩ | he | ⟨c3, hc3, _, he⟩
+  rcases slot_unfolds env n nameE isRequired data body ctx w hc hw with ⟨e, he⟩ | he | ⟨cid, cc, c3, _, hcc, hc3, hcase⟩
   · rw [he] at h; cases h
   · rw [he] at h
     obtain ⟨rfl, rfl⟩ := ok_inj h
     exact Bal.refl env w
-  · rw [he] at h
-    exact ih.nodes body c3 w toks w' hb hc3 hw h
+  · rcases hcase with ⟨_, _, he⟩ | ⟨f, hf, he⟩
+    · rw [he] at h
+      exact ih.nodes body c3 w toks w' hb hc3 hw h
+    · rw [he] at h
+      obtain ⟨k', hmem⟩ := sGet_mem _ _ f hf
+      have hgf : GoodFill f := (hw.good cid cc hcc).1 (k', f) hmem
+      exact ih.nodes f.nodes c3 w toks w' hgf.1 hc3 hw h
 
+/-! ### reading the body of a component tag for fills -/
+
+theorem foldl_updateL_free (f : Layer → Layer) (hf : ∀ l, slotFreeKvs l = true → slotFreeKvs (f l) = true) :
+    ∀ (c : Ctx) (acc : Layer), ctxFree c = true → slotFreeKvs acc = true →
+      slotFreeKvs (c.foldl (fun acc l => updateL acc (f l)) acc) = true
+  | [], acc, _, ha => ha
+  | l :: rest, acc, hc, ha => by
+    rw [all_free_iff] at hc
+    simp only [List.foldl_cons]
+    exact foldl_updateL_free f hf rest _ ((all_free_iff rest).mpr (fun x hx => hc x (List.mem_cons_of_mem _ hx)))
+      (updateL_free _ _ ha (hf l (hc l (List.mem_cons_self ..))))
+
+theorem foldl_condUpdate_free (p : Layer → Bool) :
+    ∀ (c : Ctx) (acc : Layer), ctxFree c = true → slotFreeKvs acc = true →
+      slotFreeKvs (c.foldl (fun acc l => if p l then updateL acc l else acc) acc) = true
+  | [], acc, _, ha => ha
+  | l :: rest, acc, hc, ha => by
+    rw [all_free_iff] at hc
+    simp only [List.foldl_cons]
+    refine foldl_condUpdate_free p rest _ ((all_free_iff rest).mpr (fun x hx => hc x (List.mem_cons_of_mem _ hx))) ?_
+    split
+    · exact updateL_free _ _ ha (hc l (List.mem_cons_self ..))
+    · exact ha
+
+theorem capturedExtra_free (ctx : Ctx) (h : ctxFree ctx = true) : slotFreeKvs (capturedExtra ctx) = true := by
+  unfold capturedExtra
+  apply filter_free
+  apply foldl_condUpdate_free _ ctx _ h
+  have hdrop : ctxFree (ctx.drop ((getLastIndex (hasL fillGenKey) ctx).getD 0)) = true := by
+    rw [all_free_iff] at h ⊢
+    intro l hl; exact h l (List.mem_of_mem_drop hl)
+  exact foldl_updateL_free _ (fun l hl => filter_free _ l hl) _ [] hdrop rfl
+
+/-- a `{% fill %}` found while the body was read -/
+def GoodCap (c : Captured) : Prop := tnodes c.nodes = true ∧ slotFreeKvs c.extra = true ∧ c.defaultVar = none
+
+theorem extract_ok (env : Env) : ∀ (n : Nat) (body : List Node) (ctx : Ctx) (w w' : World) (toks : List Tok),
+    fbody body = true → ctxFree ctx = true → isExtracting ctx = true →
+    (renderNodes env n body ctx).run.run w = (.ok toks, w') →
+    toks = [] ∧ ∃ caps st, w' = { w with cap := w.cap ++ caps, steps := st } ∧ caps.length = body.length ∧ ∀ c ∈ caps, GoodCap c
+  | 0, _, _, _, _, _, _, _, _, h => by simp only [renderNodes, run_throw] at h; cases h
+  | n + 1, [], ctx, w, w', toks, _, _, _, h => by
+    simp only [renderNodes, run_pure] at h
+    obtain ⟨rfl, rfl⟩ := ok_inj h
+    exact ⟨rfl, [], w.steps, by simp, rfl, by intro c hc; cases hc⟩
+  | n + 1, nd :: rest, ctx, w, w', toks, hb, hc, hx, h => by
+    simp only [renderNodes] at h
+    obtain ⟨a, w1, h1, h⟩ := bind_ok _ _ _ _ _ h
+    obtain ⟨b, w2, h2, h⟩ := bind_ok _ _ _ _ _ h
+    simp only [run_pure] at h
+    obtain ⟨rfl, rfl⟩ := ok_inj h
+    -- the first node is a fill tag with a literal name and no default alias
+    cases nd with
+    | fill nameE dataVar defaultVar content =>
+      cases nameE with
+      | var p => simp [fbody] at hb
+      | lit nm =>
+        cases defaultVar with
+        | some d => simp [fbody] at hb
+        | none =>
+          simp only [fbody, Bool.and_eq_true] at hb
+          have hfirst : a = [] ∧ ∃ st, w1 = { w with cap := w.cap ++ [{ name := nm, dataVar := dataVar, defaultVar := none, nodes := content, extra := capturedExtra ctx }], steps := st } := by
+            cases n with
+            | zero => simp only [renderNode, run_throw] at h1; cases h1
+            | succ m =>
+              unfold renderNode at h1
+              simp only [run_bind, run_get] at h1
+              by_cases hst : w.steps ≥ env.maxSteps
+              · simp only [hst, if_true, run_throw] at h1; cases h1
+              · simp only [hst, if_false, run_set, hx, Bool.not_true, Bool.false_eq_true, ↓reduceIte, evalExpr, run_pure] at h1
+                cases dataVar with
+                | none =>
+                  simp only [Option.isSome_none, Bool.false_and, Bool.false_eq_true, ↓reduceIte, run_pure, run_bind, run_modify] at h1
+                  obtain ⟨rfl, rfl⟩ := ok_inj h1
+                  exact ⟨rfl, _, rfl⟩
+                | some dv =>
+                  by_cases hid : isIdentifier dv = true
+                  · simp only [hid, Bool.not_true, Bool.false_eq_true, ↓reduceIte, run_pure, run_bind, Option.isSome_some, Bool.true_and,
+                      decide_eq_true_eq, reduceCtorEq, run_modify] at h1
+                    obtain ⟨rfl, rfl⟩ := ok_inj h1
+                    exact ⟨rfl, _, rfl⟩
+                  · simp only [hid, Bool.not_false, ↓reduceIte, run_bind, run_throw] at h1; cases h1
+          obtain ⟨rfl, st1, rfl⟩ := hfirst
+          obtain ⟨rfl, caps, st, rfl, hlen, hgood⟩ := extract_ok env n rest ctx _ w2 b hb.2 hc hx h2
+          refine ⟨rfl, ({ name := nm, dataVar := dataVar, defaultVar := none, nodes := content, extra := capturedExtra ctx } : Captured) :: caps,
+            st, by simp [List.append_assoc], by simp [hlen], ?_⟩
+          intro c hcm
+          rcases List.mem_cons.mp hcm with e | e
+          · rw [e]; exact ⟨hb.1, capturedExtra_free ctx hc, rfl⟩
+          · exact hgood c e
+    | text _ => simp [fbody] at hb
+    | out _ => simp [fbody] at hb
+    | ifn _ _ _ => simp [fbody] at hb
+    | forn _ _ _ => simp [fbody] at hb
+    | withn _ _ _ => simp [fbody] at hb
+    | elem _ _ => simp [fbody] at hb
+    | slot _ _ _ _ _ => simp [fbody] at hb
+    | comp _ _ _ _ _ => simp [fbody] at hb
+    | provide _ _ _ => simp [fbody] at hb
+    | block _ _ => simp [fbody] at hb
+    | blockSuper => simp [fbody] at hb
+    | «extends» _ => simp [fbody] at hb
+    | includen _ => simp [fbody] at hb
+
+theorem goodFills_sSet (k : Str) (v : FillFn) : ∀ (l : List (Str × FillFn)), GoodFill v → GoodFills l → GoodFills (sSet k v l)
+  | [], hv, _ => by
+    intro kv hkv
+    simp only [sSet, List.mem_singleton] at hkv
+    rw [hkv]; exact hv
+  | (k', v') :: rest, hv, hl => by
+    intro kv hkv
+    simp only [sSet] at hkv
+    split at hkv
+    · rcases List.mem_cons.mp hkv with e | e
+      · rw [e]; exact hv
+      · exact hl kv (List.mem_cons_of_mem _ e)
+    · rcases List.mem_cons.mp hkv with e | e
+      · rw [e]; exact hl (k', v') (List.mem_cons_self ..)
+      · exact goodFills_sSet k v rest hv (fun x hx => hl x (List.mem_cons_of_mem _ hx)) kv e
+
+theorem goodFills_fold : ∀ (caps : List Captured) (acc : List (Str × FillFn)), GoodFills acc → (∀ c ∈ caps, GoodCap c) →
+    GoodFills (caps.foldl (fun acc c => sSet c.name (fillOfCaptured c) acc) acc)
+  | [], acc, ha, _ => ha
+  | c :: rest, acc, ha, hc => by
+    simp only [List.foldl_cons]
+    refine goodFills_fold rest _ (goodFills_sSet _ _ acc ?_ ha) (fun x hx => hc x (List.mem_cons_of_mem _ hx))
+    obtain ⟨h1, h2, h3⟩ := hc c (List.mem_cons_self ..)
+    exact ⟨h1, h2, h3, rfl⟩
+
+theorem isExtracting_push (ctx : Ctx) : isExtracting (ctx ++ [[(fillGenKey, Val.fillGen)]]) = true := by
+  simp [isExtracting, ctxHas, ctxGet_append_one, lookupL]
+
+/-- `resolve_fills` on a body of the fragment: the fills are of the fragment, the world is as before (the capture list is
+restored) -/
+theorem resolveFills_ok (env : Env) (n : Nat) (body : List Node) (ctx : Ctx) (w w' : World) (fills : List (Str × FillFn))
+    (hb : fbody body = true) (hc : ctxFree ctx = true)
+    (h : (resolveFills env (n + 1) body ctx).run.run w = (.ok fills, w')) :
+    GoodFills fills ∧ ∃ st, w' = { w with steps := st } := by
+  unfold resolveFills at h
+  cases body with
+  | nil =>
+    simp only [List.isEmpty_nil, ↓reduceIte, run_pure] at h
+    obtain ⟨rfl, rfl⟩ := ok_inj h
+    exact ⟨fun kv hkv => (by cases hkv), w.steps, rfl⟩
+  | cons nd rest =>
+    simp only [List.isEmpty_cons, Bool.false_eq_true, ↓reduceIte, run_bind, run_get, run_modify] at h
+    have hcE : ctxFree (ctx ++ [[(fillGenKey, Val.fillGen)]]) = true := ctxFree_push ctx _ hc (by simp [slotFreeKvs, slotFree])
+    split at h
+    · rename_i content w1 hrun
+      obtain ⟨rfl, caps, st, rfl, hlen, hgood⟩ := extract_ok env n (nd :: rest) _ _ w1 content hb hcE (isExtracting_push ctx) hrun
+      simp only [List.nil_append, run_bind, run_get, run_modify] at h
+      have hne : caps.isEmpty = false := by
+        cases caps with
+        | nil => simp at hlen
+        | cons c cs => rfl
+      by_cases hnd : (caps.map (·.name)).Nodup
+      · simp only [decideFills, hne, Bool.false_eq_true, ↓reduceIte, blankToks, List.all_nil, Bool.not_true, hnd, not_true_eq_false,
+          decide_false, decide_true, run_pure] at h
+        obtain ⟨rfl, rfl⟩ := ok_inj h
+        exact ⟨goodFills_fold caps [] (fun kv hkv => (by cases hkv)) hgood, st, rfl⟩
+      · simp only [decideFills, hne, Bool.false_eq_true, ↓reduceIte, blankToks, List.all_nil, Bool.not_true, hnd, not_false_eq_true,
+          decide_false, decide_true, run_throw] at h
+        cases h
+    · cases h
 
 theorem stmt_tag (env : Env) (n : Nat) (ih : Stmt env n) :
-    ∀ name kwargs only dyn ctx w toks w', isDynName name = false → ctxFree ctx = true → WInv w →
-    (renderCompTag env (n + 1) name kwargs only dyn [] ctx).run.run w = (.ok toks, w') → Bal env w w' (holeIds toks) := by
-  intro name kwargs only dyn ctx w toks w' hd hc hw h
+    ∀ name kwargs only dyn body ctx w toks w', isDynName name = false → fbody body = true → ctxFree ctx = true → WInv w →
+    (renderCompTag env (n + 1) name kwargs only dyn body ctx).run.run w = (.ok toks, w') → Bal env w w' (holeIds toks) := by
+  intro name kwargs only dyn body ctx w toks w' hd hb hc hw h
   unfold renderCompTag at h
   cases hext : isExtracting ctx with
   | true =>
@@ -1075,21 +1325,22 @@ theorem stmt_tag (env : Env) (n : Nat) (ih : Stmt env n) :
     obtain ⟨rfl, rfl⟩ := ok_inj h
     exact Bal.refl env w
   | false =>
-    simp only [hext, Bool.false_eq_true, ↓reduceIte, run_bind] at h
+    simp only [hext, Bool.false_eq_true, ↓reduceIte] at h
     cases hf : findDef env name with
-    | none => simp only [hf, hd, Bool.false_eq_true, ↓reduceIte, run_throw] at h; cases h
+    | none => simp only [hf, hd, Bool.false_eq_true, ↓reduceIte, run_bind, run_throw] at h; cases h
     | some d =>
-      simp only [hf, run_pure] at h
+      simp only [hf] at h
+      obtain ⟨fills, w1, hres, h⟩ := bind_ok _ _ _ _ _ h
       cases n with
-      | zero => simp only [resolveFills, run_throw] at h; cases h
+      | zero => simp only [resolveFills, run_throw] at hres; cases hres
       | succ m =>
-        unfold resolveFills at h
-        simp only [List.isEmpty_nil, ↓reduceIte, run_pure] at h
-        refine (ih.impl name (evalKwargs ctx kwargs) ctx _ w toks w' hd ?_ hc (evalKwargs_free ctx hc kwargs) hw h).1
+        obtain ⟨hgf, st, rfl⟩ := resolveFills_ok env m body ctx w w1 fills hb hc hres
+        have hcore : core ({ w with steps := st } : World) = core w := rfl
+        refine Bal.left hcore (ih.impl name (evalKwargs ctx kwargs) fills ctx _ _ toks w' hd ?_ hc (evalKwargs_free ctx hc kwargs) hgf
+          (WInv.of_core hcore.symm hw) h).1
         split
         · exact ctxFree_isolatedCopy ctx hc
         · exact hc
-
 
 /-- the body of `renderImpl`, with the enclosing instance as a parameter -/
 def implBody (env : Env) (n : Nat) (name : Str) (kw : List (Str × Val)) (fills : List (Str × FillFn)) (outer : Option Ctx)
@@ -1143,17 +1394,19 @@ theorem pure_of_good (d : CompDef) (h : d.data.all (fun kv => pureSrc kv.2 && co
   simp only [Bool.and_eq_true] at this
   exact this.1
 
-theorem good_cc (name : Str) (id : Nat) (path : List Str) (o : Ctx) (h : ctxFree o = true) :
-    GoodC { name := name, id := id, path := path, fills := [], isDyn := false, defaultSlot := none,
+theorem good_cc (name : Str) (id : Nat) (path : List Str) (fills : List (Str × FillFn)) (o : Ctx) (hgf : GoodFills fills)
+    (h : ctxFree o = true) :
+    GoodC { name := name, id := id, path := path, fills := fills, isDyn := false, defaultSlot := none,
             outer := Option.map snapshot (some o) } :=
-  ⟨rfl, rfl, snapshot o, rfl, ctxFree_snapshot o h⟩
+  ⟨hgf, rfl, snapshot o, rfl, ctxFree_snapshot o h⟩
 
 theorem good_renderer (env : Env) (name : Str) (kw : List (Str × Val)) (ctx : Ctx) (id : Nat) (d : CompDef) (o : Option Ctx)
+    (fills : List (Str × FillFn))
     (hc : ctxFree ctx = true) (hkw : slotFreeKvs kw = true) (hf : findDef env name = some d)
     (hgood : d.data.all (fun kv => pureSrc kv.2 && constFree kv.2) = true) :
     GoodR env { id := id, name := name,
-                ctx := snapshot (ctx ++ [dataPure id kw d.data []] ++ [[(compKey, .compRef id), (compVarsKey, compVars [])]]),
-                dynInner := none, fills := [], outer := o } id where
+                ctx := snapshot (ctx ++ [dataPure id kw d.data []] ++ [[(compKey, .compRef id), (compVarsKey, compVars fills)]]),
+                dynInner := none, fills := fills, outer := o } id where
   id := rfl
   dyn := rfl
   free := by
@@ -1178,10 +1431,11 @@ theorem loop_root (env : Env) (n : Nat) (ih : Stmt env n) (w w1 w' : World) (tok
   exact ⟨hfin.to_bal, rfl⟩
 
 theorem stmt_impl (env : Env) (n : Nat) (ih : Stmt env n) (hlib : GoodLib env) :
-    ∀ name kw o ctx w toks w', isDynName name = false → ctxFree ctx = true → ctxFree o = true → slotFreeKvs kw = true → WInv w →
-    (renderImpl env (n + 1) name kw [] (some o) ctx).run.run w = (.ok toks, w') →
+    ∀ name kw fills o ctx w toks w', isDynName name = false → ctxFree ctx = true → ctxFree o = true → slotFreeKvs kw = true →
+    GoodFills fills → WInv w →
+    (renderImpl env (n + 1) name kw fills (some o) ctx).run.run w = (.ok toks, w') →
       Bal env w w' (holeIds toks) ∧ (parentOf ctx = none → holeIds toks = []) := by
-  intro name kw o ctx w toks w' hd hc ho hkw hw h
+  intro name kw fills o ctx w toks w' hd hc ho hkw hgf hw h
   rw [renderImpl_succ] at h
   generalize parentOf ctx = par at h ⊢
   unfold implBody at h
@@ -1220,8 +1474,8 @@ theorem stmt_impl (env : Env) (n : Nat) (ih : Stmt env n) (hlib : GoodLib env) :
         · rename_i a wt ht
           obtain ⟨g, rfl⟩ := tick_ok _ _ _ _ _ ht
           simp only [hgd, run_bind, run_pure, run_modify] at h
-          have := loop_root env n ih w _ w' toks hw h _ _ (good_renderer env name kw ctx w.nextId d _ hc hkw hf hgood.2)
-            (good_cc name w.nextId _ o ho) rfl rfl rfl rfl hw.prov.symm rfl rfl rfl rfl
+          have := loop_root env n ih w _ w' toks hw h _ _ (good_renderer env name kw ctx w.nextId d _ fills hc hkw hf hgood.2)
+            (good_cc name w.nextId _ fills o hgf ho) rfl rfl rfl rfl hw.prov.symm rfl rfl rfl rfl
           exact ⟨this.1, fun _ => this.2⟩
         · cases h
       | false =>
@@ -1231,8 +1485,8 @@ theorem stmt_impl (env : Env) (n : Nat) (ih : Stmt env n) (hlib : GoodLib env) :
         · rename_i a wt ht
           obtain ⟨g, rfl⟩ := tick_ok _ _ _ _ _ ht
           simp only [hgd, run_bind, run_pure, run_modify] at h
-          have := loop_root env n ih w _ w' toks hw h _ _ (good_renderer env name kw ctx w.nextId d _ hc hkw hf hgood.2)
-            (good_cc name w.nextId _ o ho) rfl rfl rfl rfl hw.prov.symm rfl rfl rfl rfl
+          have := loop_root env n ih w _ w' toks hw h _ _ (good_renderer env name kw ctx w.nextId d _ fills hc hkw hf hgood.2)
+            (good_cc name w.nextId _ fills o hgf ho) rfl rfl rfl rfl hw.prov.symm rfl rfl rfl rfl
           exact ⟨this.1, fun _ => this.2⟩
         · cases h
     | some p =>
@@ -1247,8 +1501,8 @@ theorem stmt_impl (env : Env) (n : Nat) (ih : Stmt env n) (hlib : GoodLib env) :
           obtain ⟨g, rfl⟩ := tick_ok _ _ _ _ _ ht
           simp only [hgd, run_bind, run_pure, run_modify] at h
           obtain ⟨rfl, rfl⟩ := ok_inj h
-          exact ⟨reg_Bal env w _ _ _ hw (good_renderer env name kw ctx w.nextId d _ hc hkw hf hgood.2)
-            (good_cc name w.nextId _ o ho) rfl rfl rfl rfl hw.prov.symm rfl rfl rfl rfl, fun hh => by cases hh⟩
+          exact ⟨reg_Bal env w _ _ _ hw (good_renderer env name kw ctx w.nextId d _ fills hc hkw hf hgood.2)
+            (good_cc name w.nextId _ fills o hgf ho) rfl rfl rfl rfl hw.prov.symm rfl rfl rfl rfl, fun hh => by cases hh⟩
         · cases h
 
 
@@ -1392,37 +1646,39 @@ theorem tree_render_balanced (env : Env) (hlib : GoodLib env) (n : Nat) (nodes :
 deferred loop has run to its end — no placeholder in the output, the registries hold what they held, whatever tree of
 components the library unfolds under this tag. -/
 theorem tree_root_tag (env : Env) (hlib : GoodLib env) (n : Nat) (name : Str) (kwargs : List (Str × Expr)) (only dyn : Bool)
-    (ctx : Ctx) (w w' : World) (toks : List Tok)
-    (hd : isDynName name = false) (hc : ctxFree ctx = true) (hw : WInv w) (hext : isExtracting ctx = false)
+    (body : List Node) (ctx : Ctx) (w w' : World) (toks : List Tok)
+    (hd : isDynName name = false) (hb : fbody body = true) (hc : ctxFree ctx = true) (hw : WInv w) (hext : isExtracting ctx = false)
     (hpar : parentOf (if only || env.isolated then isolatedCopy ctx else ctx) = none)
-    (h : (renderCompTag env n name kwargs only dyn [] ctx).run.run w = (.ok toks, w')) :
+    (h : (renderCompTag env n name kwargs only dyn body ctx).run.run w = (.ok toks, w')) :
     Bal env w w' [] ∧ holeIds toks = [] := by
   cases n with
   | zero => simp only [renderCompTag, run_throw] at h; cases h
   | succ n =>
     have ih := stmt_all env hlib n
     unfold renderCompTag at h
-    simp only [hext, Bool.false_eq_true, ↓reduceIte, run_bind] at h
+    simp only [hext, Bool.false_eq_true, ↓reduceIte] at h
     cases hf : findDef env name with
-    | none => simp only [hf, hd, Bool.false_eq_true, ↓reduceIte, run_throw] at h; cases h
+    | none => simp only [hf, hd, Bool.false_eq_true, ↓reduceIte, run_bind, run_throw] at h; cases h
     | some d =>
-      simp only [hf, run_pure] at h
+      simp only [hf] at h
+      obtain ⟨fills, w1, hres, h⟩ := bind_ok _ _ _ _ _ h
       cases n with
-      | zero => simp only [resolveFills, run_throw] at h; cases h
+      | zero => simp only [resolveFills, run_throw] at hres; cases hres
       | succ m =>
-        unfold resolveFills at h
-        simp only [List.isEmpty_nil, ↓reduceIte, run_pure] at h
+        obtain ⟨hgf, st, rfl⟩ := resolveFills_ok env m body ctx w w1 fills hb hc hres
+        have hcore : core ({ w with steps := st } : World) = core w := rfl
         have hc' : ctxFree (if only || env.isolated then isolatedCopy ctx else ctx) = true := by
           split
           · exact ctxFree_isolatedCopy ctx hc
           · exact hc
-        obtain ⟨hb, hno⟩ := ih.impl name (evalKwargs ctx kwargs) ctx _ w toks w' hd hc' hc (evalKwargs_free ctx hc kwargs) hw h
+        obtain ⟨hbal, hno⟩ := ih.impl name (evalKwargs ctx kwargs) fills ctx _ _ toks w' hd hc' hc (evalKwargs_free ctx hc kwargs) hgf
+          (WInv.of_core hcore.symm hw) h
         have := hno hpar
-        rw [this] at hb
-        exact ⟨hb, this⟩
+        rw [this] at hbal
+        exact ⟨Bal.left hcore hbal, this⟩
 
-
-/-! ### a concrete library for the instances beside the property theorems: page > list > (loop) leaf, and a leaf next to it -/
+/-! ### a concrete library for the instances beside the property theorems: page > list > (loop) leaf with a fill for the
+leaf's slot, and a leaf without fill next to the list -/
 
 def exLeaf : CompDef :=
   { name := "leaf".toList,
@@ -1431,7 +1687,8 @@ def exLeaf : CompDef :=
 def exList : CompDef :=
   { name := "list".toList,
     template := [.elem "ul".toList [.forn "x".toList (.var ["items".toList])
-      [.comp "leaf".toList [("a".toList, .var ["x".toList])] false false []]]],
+      [.comp "leaf".toList [("a".toList, .var ["x".toList])] false false
+        [.fill (.lit "s1".toList) none none [.text "+".toList, .out (.var ["x".toList])]]]]],
     data := [("items".toList, .kwarg "items".toList)] }
 def exPage : CompDef :=
   { name := "page".toList,
